@@ -33,7 +33,7 @@ from props import c05_multimod as MM
 from props import c05_kwparams as KW
 from gen import kwparams as GK
 
-MODELS = ['Scopes', 'Refs', 'RefsMulti']
+MODELS = ['Scopes', 'Refs', 'RefsMulti', 'KwBind']
 LEAN_TARGETS = ['JediModel.Props.C05', 'JediModel.Drivers.C05']
 MANIFEST = dict(
     text='Theorems: refs_sound_partial (every reported reference denotes the variable under the cursor, for '
@@ -339,10 +339,12 @@ def analyse_any(item):
         return analyse_attr(x)
     if kind == 'kw':
         return KW.analyse(x)
+    if kind == 'kg':
+        return KW.goto_chunk(x)
     return MM.analyse_project(x)
 
 
-COST = {'prog': 1, 'attr': 12, 'mm': 30, 'kw': 30}
+COST = {'prog': 1, 'attr': 12, 'mm': 30, 'kw': 30, 'kg': 3}
 
 
 def kwparam_items(ctx):
@@ -359,7 +361,22 @@ def kwparam_items(ctx):
         items.append({'seed': '%s-kw-%d' % (ctx.seed, i), 'plans': [plan], 'tag': 'random'})
     for w in KW.WITNESSES:
         items.append({'program': w, 'tag': 'witness'})
+    for w in corpus_kwparam():
+        items.append({'program': w, 'tag': 'corpus'})
     return items
+
+
+def corpus_kwparam():
+    import glob
+    import json
+    out = []
+    for p in sorted(glob.glob(os.path.join(common.CORPUS_DIR, 'C05', '*.json'))):
+        with open(p, encoding='utf-8') as f:
+            d = json.load(f)
+        if d.get('program') == 'kwparam':
+            out.append({'source': d['source'], 'dictkeys': d.get('dictkeys', []), 'collide': d.get('collide', []),
+                        'features': ['corpus:' + os.path.basename(p)]})
+    return out
 
 
 def balanced(items, jobs=14):
@@ -425,10 +442,12 @@ def run(ctx):
     attr_seeds = ['%s-attr-%d' % (ctx.seed, i) for i in range(ctx.size(12, 400))] if not only or 'attr' in only else []
     mm_items = multimod_items(ctx) if not only or 'mm' in only else []
     kw_items = kwparam_items(ctx) if not only or 'kw' in only else []
+    kg_cases = GK.goto_cases() if not only or 'kg' in only else []
+    kg_chunks = [kg_cases[i:i + 40] for i in range(0, len(kg_cases), 40)]
     if only:
         ctx.notes.append('RESTRICTED RUN (VERIF_C05_STREAMS=%s): not the full check' % ','.join(sorted(only)))
     items = [['prog', p] for p, _ in progs] + [['attr', s_] for s_ in attr_seeds] + [['mm', it] for it in mm_items] \
-        + [['kw', it] for it in kw_items]
+        + [['kw', it] for it in kw_items] + [['kg', ch] for ch in kg_chunks]
     ordered, pos = balanced(items)
     import time
     t_pool = time.time()
@@ -443,7 +462,8 @@ def run(ctx):
     outs = [fix_keys(o) for o in results[:len(progs)]]
     attr_results = results[len(progs):len(progs) + len(attr_seeds)]
     mm_results = results[len(progs) + len(attr_seeds):len(progs) + len(attr_seeds) + len(mm_items)]
-    kw_results = results[len(progs) + len(attr_seeds) + len(mm_items):]
+    kw_results = results[len(progs) + len(attr_seeds) + len(mm_items):len(items) - len(kg_chunks)]
+    kg_results = [r for ch in results[len(items) - len(kg_chunks):] for r in ch]
     reqs = []
     how = 'jedi.Script(source).rename(line, column, new_name=...) / get_references; see harness/props/c05.py:analyse'
     for out, (_, tag) in zip(outs, progs):
@@ -458,8 +478,27 @@ def run(ctx):
             ctx.fail('oracle', what, case, expected=exp, observed=obs, how=how)
         flat = out['flat']
         reqs.append({'op': 'refs', 'scopes': [s[:2] for s in flat['scopes']], 'occs': flat['occs']})
-    if ctx.model_ok and reqs:
-        answers = common.run_driver_parallel('C05', reqs)
+    kg_reqs = [{'op': 'kwgoto', 'sig': c['sig'], 'k': c['k']} for c in kg_cases]
+    if ctx.model_ok and (reqs or kg_reqs):
+        answers = common.run_driver_parallel('C05', reqs + kg_reqs)
+        kg_answers = answers[len(reqs):]
+        answers = answers[:len(reqs)]
+        # ---- stream kwgoto: Script.goto on the keyword of a call vs Model.KwBind.gotoKeyword with the kind
+        # filter the translator reads from names.py (all well-formed signatures of <= 3 parameters x keyword x
+        # function / method / __init__)
+        for c, r, a in zip(kg_cases, kg_results, kg_answers):
+            if isinstance(a, dict) and 'error' in a:
+                raise common.InfraError('driver: %r' % a)
+            if 'raised' in r:
+                ctx.count('raised', None, nontrivial=False, bucket='kwgoto:' + r['raised'])
+                continue
+            ctx.count('kwgoto', (c['source'], c['line'], c['col']), nontrivial=bool(a['goto']),
+                      bucket='%s:%s' % (c['form'], 'binds' if a['binds'] else ('tied-not-bound' if a['goto'] else 'no-parameter')),
+                      sample={'source': c['source'], 'line': c['line'], 'column': c['col'], 'goto': r['goto']})
+            if sorted(a['goto']) != r['goto']:
+                ctx.tie_broken('correspondence:kwgoto',
+                               short({'source': c['source'], 'line': c['line'], 'column': c['col'],
+                                      'jedi (parameter indices)': r['goto'], 'model': a['goto']}, 1500))
         for out, a in zip(outs, answers):
             if isinstance(a, dict) and 'error' in a:
                 raise common.InfraError('driver: %r' % a)
